@@ -76,7 +76,7 @@ static const Fault FAULTS[] = {
     {"undeclared-identifier", 1, " + nope"}, {"dropped-operand", 1, " +"}, {"unbalanced-bracket", 1, " )"}, {"unbalanced-open-bracket", 2, "( "}, {"stray-token", 1, " ] h"},
     {"unterminated-comment", 1, " /* tail"}, {"type-error", 1, " + c"}, {"unknown-token", 1, " @"}, {"quantifier-over-clock", 2, "(forall (i : clock) i > 0) + "},
     {"call-of-non-function", 1, " + g(1)"}, {"bad-array-index", 1, " + arr[c]"}, {"empty-label", 0, " "}, {"double-operator", 1, " * / 2"}, {"side-effect", 1, " + (g = 1)"}, {"exists-dynamic-unknown", 2, "(exists (p : Nope)(true)) + "},
-    {"sum-over-struct", 2, "(sum (i : chan) 1) + "}};
+    {"sum-over-struct", 2, "(sum (i : chan) 1) + "}, {"overflowing-literal", 1, " + 20000000000"}, {"overflowing-literal-first", 2, "4294967296 + "}};
 static const int NFAULTS = sizeof FAULTS / sizeof FAULTS[0];
 
 // full = false: reader + builders only (what the parse itself built); full = true: followed by TypeChecker / FeatureChecker as parse_XML_buffer(buf, doc) does
@@ -90,7 +90,7 @@ static std::string parse_and_dump(MModel& m, const Site* mask, Document& doc, bo
     return dump_document(doc, o);
 }
 
-extern "C" void harness_label_faults()  /* vf: bounds=13_label_sites_in_2_templates(invariant,rate,guard,synchronisation,update,probability)_x_16_faults(syntactic_and_semantic) reach=end */
+extern "C" void harness_label_faults()  /* vf: bounds=13_label_sites_in_2_templates(invariant,rate,guard,synchronisation,update,probability)_x_18_faults(syntactic_and_semantic) reach=end */
 {
     int si = vf_pick("!site", NSITES), fi = vf_pick("!fault", NFAULTS);
     const Site& s = SITES[si]; const Fault& f = FAULTS[fi];
@@ -179,5 +179,47 @@ extern "C" void harness_declaration_faults()  /* vf: bounds=global_or_template-l
     std::string want_path = local ? "/nta/template[1]/declaration" : "/nta/declaration";
     for (auto& e : doc.get_errors()) { std::string p = e.start.path ? *e.start.path : std::string(); if (p != want_path) { vf_note(("diagnostic elsewhere: " + e.msg + " @" + p).c_str()); paths_ok = false; } }
     vf_notei("all_diagnostics_in_block", paths_ok);
+    assert_invariants(doc, !threw);
+}
+
+// the same label faults in the textual .xta format: the grammar's own error productions (StateDecl, Guard, Sync, Assign, ...) must contain the fault
+extern "C" void harness_label_faults_xta()  /* vf: bounds=13_label_sites_x_10_faults(semantic_faults_and_over-long_literals)_in_the_whole-file_XTA_rendering;rest_of_the_document_equals_the_fault-free_parse(reader/builder_level);C08_invariants reach=end */
+{
+    int si = vf_pick("!site", NSITES), fi = vf_pick("!fault", NFAULTS);
+    const Site& s = SITES[si]; const Fault& f = FAULTS[fi];
+    // In a single text the unit a syntax error is confined to is whatever the grammar's error productions resynchronise on, not the label
+    // (an open bracket or comment legitimately swallows what follows). The textual format is therefore exercised with faults that are
+    // lexically and syntactically well-formed (semantic faults) plus over-long integer literals (a lexical fault inside one token).
+    {
+        std::string n = f.name;
+        vf_assume(n == "undeclared-identifier" || n == "type-error" || n == "quantifier-over-clock" || n == "call-of-non-function" || n == "bad-array-index" || n == "side-effect" ||
+                  n == "exists-dynamic-unknown" || n == "sum-over-struct" || n == "overflowing-literal" || n == "overflowing-literal-first");
+    }
+    auto run = [&](MModel& m, Document& doc, bool& threw) {
+        std::string text = render_xta(m);
+        threw = false;
+        try { DocumentBuilder b(doc); parse_XTA(text.c_str(), &b, true); } catch (std::exception& e) { threw = true; vf_note(e.what()); }
+        erase_site(doc, s);
+        if (s.elem == 'L') { Site inv = s, rate = s; inv.kind = "invariant"; rate.kind = "exponentialrate"; erase_site(doc, inv); erase_site(doc, rate); }   // "{ invariant ; rate }" is one unit of the textual syntax
+        return dump_document(doc);
+    };
+    MModel ref = base_model();
+    Document rdoc; bool rthrew;
+    std::string want = run(ref, rdoc, rthrew);
+    vf_assert(!rthrew && !rdoc.has_errors(), "fault-free-model-accepted");
+    MModel m = base_model();
+    std::string* lt = label_text(m, s);
+    std::string sync_suffix;
+    if (std::string(s.kind) == "synchronisation") { sync_suffix = lt->substr(lt->size() - 1); *lt = lt->substr(0, lt->size() - 1); }
+    if (f.mode == 0) *lt = f.text; else if (f.mode == 1) *lt += f.text; else *lt = f.text + *lt;
+    *lt += sync_suffix;
+    Document doc; bool threw;
+    std::string got = run(m, doc, threw);
+    vf_note(f.name); vf_note(lt->c_str()); vf_notei("threw", threw); vf_notei("errors", (long)doc.get_errors().size());
+    note_errors(doc);
+    vf_reach("end");
+    vf_assert(!threw, "faulted-label-does-not-abort-the-parse");
+    if (got != want) { vf_note(want.c_str()); vf_note(got.c_str()); }
+    vf_assert(got == want, "rest-of-document-unchanged");
     assert_invariants(doc, !threw);
 }
